@@ -297,12 +297,28 @@ from_aeon_fn = z3.Function("from_aeon", TAeonText.sort(), TNetObj.sort())
 cleanup_fn = z3.Function("cleanup_network", TNetObj.sort(), TNetObj.sort())
 _n = z3.Const("n!aeon", TNetObj.sort())
 TRUSTED["aeon.BooleanNetwork.to_aeon / from_aeon"] = (
-    "a network prepared by cleanup_network (no parameters, inferred regulatory graph) is reproduced by "
-    "cleanup_network(from_aeon(to_aeon(n))) up to the observations the library makes of it (variable names and order, update functions): "
-    "modelled as equality of the abstract network objects")
+    "parsing .aeon text orders the variables by name; so cleanup_network(from_aeon(to_aeon(n))) of a cleaned network n (no parameters, inferred "
+    "regulatory graph) is a network in CANONICAL form (cleaned, variables in name order) with the same names and update functions, and a "
+    "network in canonical form is reproduced exactly (up to the observations the library makes of it: variable names and order, update "
+    "functions) - modelled as equality of the abstract network objects. A network that is NOT in name order is not reproduced (finding D15)")
+Canonical = z3.Function("bn_is_canonical", TNetObj.sort(), B)      # cleaned, and the variables are in name order
+
+
+def canon_fn(n):
+    """the network the constructor keeps: the cleaned argument sent through the text round trip that pickling uses"""
+    return cleanup_fn(from_aeon_fn(to_aeon_fn(cleanup_fn(n))))
+
+
+_pq = z3.Const("p!aeon", T.PNS)
 AX_AEON = [
-    z3.ForAll([_n], z3.Implies(cleanup_fn(_n) == _n, cleanup_fn(from_aeon_fn(to_aeon_fn(_n))) == _n), patterns=[to_aeon_fn(_n)]),
+    # the text round trip of a cleaned network gives a canonical network; canonical networks are cleaned and are fixed points of it
+    z3.ForAll([_n], z3.Implies(cleanup_fn(_n) == _n, Canonical(cleanup_fn(from_aeon_fn(to_aeon_fn(_n))))), patterns=[to_aeon_fn(_n)]),
+    z3.ForAll([_n], z3.Implies(Canonical(_n), z3.And(cleanup_fn(_n) == _n, cleanup_fn(from_aeon_fn(to_aeon_fn(_n))) == _n)), patterns=[Canonical(_n)]),
     z3.ForAll([_n], z3.And(cleanup_fn(cleanup_fn(_n)) == cleanup_fn(_n), bn_net_of(cleanup_fn(_n)) == bn_net_of(_n)), patterns=[cleanup_fn(_n)]),
+    # names and update functions survive the round trip: whatever encodes the dynamics of n encodes the dynamics of its canonical form, and
+    # the empty space is a (well-formed, percolated) trap space of both
+    z3.ForAll([_pq, _n], z3.Implies(T.Encodes(_pq, bn_net_of(_n), EMPTY), T.Encodes(_pq, bn_net_of(canon_fn(_n)), EMPTY)),
+              patterns=[z3.MultiPattern(T.Encodes(_pq, bn_net_of(_n), EMPTY), canon_fn(_n))]),
 ]
 
 
